@@ -18,6 +18,13 @@
               instance) and ``Environment.__hash__`` covers the six delimiters and the mode;
               ``Parser`` keeps only ``env``; every attribute a ``Tag`` instance stores is ``env``
               or derived from ``self.env`` / the ``env`` argument.
+  C11-MARKER  the liquid tag's line-comment marker, derived from ``comment_start_string``: it
+              reaches the line pattern through ``re.escape``; in the alternation that captures a
+              line's first word the marker alternative is tried before any alternative that can
+              start with a word character (else the marker ``c-`` is read as the tag ``c``) and
+              is closed by a word boundary for markers ending in a word character (else the
+              marker ``c`` swallows ``case``); the tokenizer skips a line exactly when the
+              captured name equals the same, unescaped, marker.
   C11-SHARED  (with C17-MODULE) no module- or class-level container is mutated by lexing or
               parsing code.
 Not decided: output equality under delimiter rewriting as such (value level); the liquid
@@ -64,7 +71,7 @@ REVIEWED_LITERAL = {
 
 def run(repo: Repo) -> Result:
     res = Result(PID)
-    res.rules = ["C11-ESCAPE", "C11-PLUMB", "C11-LITERAL", "C11-IDENT"]
+    res.rules = ["C11-ESCAPE", "C11-PLUMB", "C11-LITERAL", "C11-IDENT", "C11-MARKER"]
     res.explanation = "taint of delimiter parameters into regex patterns; name-by-name plumbing of the configuration through the memoised factories; no hard-coded delimiters; per-instance identity of environments/parsers/tags"
     res.assumptions = ["delimiters do not collide with each other or with the template text (the property's own precondition)"]
     lm = LexModel(repo)
@@ -237,8 +244,274 @@ def run(repo: Repo) -> Result:
     res.ob(gp.qual)
     if "return Parser(env)" not in text(gp.node):
         res.add("C11-IDENT", gp.qual, "parser", "get_parser must build Parser(env) for exactly the environment it is asked for", gp.file, gp.line)
+    _check_marker(repo, res)
     res.stats.update(tag_inits=n_tag, template_config_keywords=cfg)
     return res
+
+
+MARK = ""  # stands for re.escape(<marker derived from comment_start_string>)
+RAWMARK = ""  # the marker interpolated without re.escape
+
+
+def _check_marker(repo: Repo, res: Result) -> None:
+    import re._constants as C  # type: ignore[import-not-found]
+    import re._parser as P  # type: ignore[import-not-found]
+
+    from .. import rx
+    from ..guards import canon, conditions
+    from ..model import fold_str
+    from ..normalize import propagate_aliases
+
+    init = repo.own_method("liquid.builtin.tags.liquid_tag.LiquidTag", "__init__")
+    mod = init.module
+    res.ob(f"marker:{init.qual}", 3)
+
+    # -- abstract run of __init__: strings with placeholders, forking at every `if` ----------
+    def derived(e, env) -> bool:
+        return any((isinstance(n, ast.Attribute) and n.attr == "comment_start_string") or (isinstance(n, ast.Name) and env.get(n.id) in ("<marker>",)) for n in ast.walk(e))
+
+    def ev(e, env):
+        if isinstance(e, ast.Constant) and isinstance(e.value, str):
+            return e.value
+        if isinstance(e, ast.JoinedStr):
+            out = []
+            for v in e.values:
+                if isinstance(v, ast.Constant):
+                    out.append(str(v.value))
+                else:
+                    x = ev(v.value, env)
+                    if x is None:
+                        return None
+                    out.append(RAWMARK if x == "<marker>" else x)
+            return "".join(out)
+        if isinstance(e, ast.BinOp) and isinstance(e.op, ast.Add):
+            a, b = ev(e.left, env), ev(e.right, env)
+            if a is None or b is None:
+                return None
+            return (RAWMARK if a == "<marker>" else a) + (RAWMARK if b == "<marker>" else b)
+        if isinstance(e, ast.Call) and text(e.func) == "re.escape" and len(e.args) == 1:
+            return MARK if derived(e.args[0], env) else None
+        if isinstance(e, ast.Name):
+            if e.id in env:
+                return env[e.id]
+            return fold_str(repo, mod, e, 0)
+        if derived(e, env):
+            return "<marker>"
+        return fold_str(repo, mod, e, 0)
+
+    found: list[tuple[str, tuple, int]] = []  # (pattern, conditions, line)
+    plumb: list[tuple[ast.Call, dict]] = []
+
+    def scan(e, env, conds):
+        for n in ast.walk(e):
+            if isinstance(n, ast.Tuple) and len(n.elts) == 2 and fold_str(repo, mod, n.elts[0], 0) == "LIQUID_EXPR":
+                pat = ev(n.elts[1], env)
+                if pat is None:
+                    raise AnchorMissing(f"LiquidTag.__init__: cannot evaluate the LIQUID_EXPR pattern `{text(n.elts[1])[:60]}` statically")
+                found.append((pat, tuple(conds), n.lineno))
+            if isinstance(n, ast.Call) and callee_name(n) == "partial":
+                plumb.append((n, dict(env)))
+
+    def run_block(body, env, conds):
+        for st in body:
+            if isinstance(st, ast.If):
+                t = text(st.test)
+                run_block(st.body, dict(env), conds + [(t, derived(st.test, env))])
+                run_block(st.orelse, dict(env), conds + [(f"not ({t})", derived(st.test, env))])
+                # names assigned in either branch are unknown afterwards unless equal: keep it
+                # simple — continue with the environment of the fall-through of the body
+                for sub in st.body + st.orelse:
+                    if isinstance(sub, (ast.Assign, ast.AugAssign)):
+                        tg = sub.targets[0] if isinstance(sub, ast.Assign) else sub.target
+                        if isinstance(tg, ast.Name):
+                            env.pop(tg.id, None)
+                continue
+            if isinstance(st, ast.Assign) and len(st.targets) == 1:
+                scan(st.value, env, conds)
+                if isinstance(st.targets[0], ast.Name):
+                    v = ev(st.value, env)
+                    if v is not None:
+                        env[st.targets[0].id] = v
+                    else:
+                        env.pop(st.targets[0].id, None)
+                continue
+            if isinstance(st, ast.AugAssign) and isinstance(st.target, ast.Name) and isinstance(st.op, ast.Add):
+                a, b = env.get(st.target.id), ev(st.value, env)
+                if isinstance(a, str) and isinstance(b, str) and a != "<marker>":
+                    env[st.target.id] = a + b
+                else:
+                    env.pop(st.target.id, None)
+                continue
+            scan(st, env, conds)
+
+    run_block(init.node.body, {}, [])
+    marked = [(p, c, ln) for p, c, ln in found if MARK in p or RAWMARK in p]
+    if not marked:
+        raise AnchorMissing("LiquidTag.__init__: no LIQUID_EXPR pattern built from comment_start_string found")
+    res.stats["liquid_tag_line_patterns"] = len(found)
+
+    WORD = rx._category("word")
+
+    def first_chars(items) -> int:
+        """over-approximate set of first characters an item list can start with"""
+        out = 0
+        for op, av in items:
+            if op is C.LITERAL and chr(av) in (MARK, RAWMARK):
+                return out | rx._all()
+            m = rx.charset(op, av, True)
+            if m is not None:
+                return out | m
+            if op in (C.MAX_REPEAT, C.MIN_REPEAT):
+                out |= first_chars(list(av[2]))
+                if av[0] > 0:
+                    return out
+                continue
+            if op is C.SUBPATTERN:
+                return out | first_chars(list(av[3]))
+            if op is C.BRANCH:
+                for b in av[1]:
+                    out |= first_chars(list(b))
+                return out
+            if op in (C.ASSERT, C.ASSERT_NOT, C.AT):
+                continue
+            return rx._all()
+        return out
+
+    def is_not_word_ahead(op, av) -> bool:
+        if op is C.AT and av is C.AT_BOUNDARY:
+            return True
+        if op is C.ASSERT_NOT and av[0] == 1:
+            sub = list(av[1])
+            return len(sub) == 1 and rx.charset(*sub[0], True) is not None and rx.subset(WORD, rx.charset(*sub[0], True))
+        if op is C.ASSERT and av[0] == 1:
+            sub = list(av[1])
+            m = rx.charset(*sub[0], True) if len(sub) == 1 else None
+            return m is not None and m & WORD == 0
+        return False
+
+    def is_not_word_behind(op, av) -> bool:
+        if op is C.ASSERT_NOT and av[0] == -1:
+            sub = list(av[1])
+            return len(sub) == 1 and rx.charset(*sub[0], True) is not None and rx.subset(WORD, rx.charset(*sub[0], True))
+        if op is C.ASSERT and av[0] == -1:
+            sub = list(av[1])
+            m = rx.charset(*sub[0], True) if len(sub) == 1 else None
+            return m is not None and m & WORD == 0
+        return False
+
+    def boundary_ok(tail) -> bool:
+        """the items right after the marker make `marker ends in a word char => no word char
+        follows` true"""
+        if not tail:
+            return False
+        op, av = tail[0]
+        if is_not_word_ahead(op, av):
+            return True
+        alts = None
+        if op is C.SUBPATTERN and len(list(av[3])) == 1 and list(av[3])[0][0] is C.BRANCH:
+            alts = [list(b) for b in list(av[3])[0][1][1]]
+        elif op is C.BRANCH:
+            alts = [list(b) for b in av[1]]
+        if alts:
+            ok_each = all(len(a) == 1 and (is_not_word_ahead(*a[0]) or is_not_word_behind(*a[0])) for a in alts)
+            return ok_each and any(is_not_word_ahead(*a[0]) for a in alts)
+        return False
+
+    def flatten(items) -> list[list]:
+        """alternatives of the content of the name group"""
+        items = list(items)
+        if len(items) == 1 and items[0][0] is C.BRANCH:
+            out = []
+            for b in items[0][1][1]:
+                out += flatten(b)
+            return out
+        if len(items) == 1 and items[0][0] is C.SUBPATTERN:
+            return flatten(items[0][1][3])
+        return [items]
+
+    verdicts: dict[tuple, list] = {}
+    for pat, conds, ln in marked:
+        key = tuple(t for t, dep in conds if not dep)
+        probs = []
+        if RAWMARK in pat:
+            probs.append(("raw", "the marker is interpolated into the line pattern without re.escape: a marker made of regex metacharacters changes the pattern"))
+        try:
+            tree = P.parse(pat, 16)
+        except Exception as err:  # noqa: BLE001
+            raise AnchorMissing(f"LiquidTag.__init__: LIQUID_EXPR pattern does not parse: {err}") from err
+        gid = tree.state.groupdict.get("name")
+        grp = None
+
+        def find(items):
+            nonlocal grp
+            for op, av in items:
+                if op is C.SUBPATTERN:
+                    if av[0] == gid:
+                        grp = list(av[3])
+                    find(av[3])
+                elif op is C.BRANCH:
+                    for b in av[1]:
+                        find(b)
+                elif op in (C.MAX_REPEAT, C.MIN_REPEAT):
+                    find(av[2])
+
+        find(tree)
+        if gid is None or grp is None:
+            probs.append(("no-name-group", "the line pattern has no group `name`"))
+            verdicts.setdefault(key, []).append((probs, ln))
+            continue
+        alts = flatten(grp)
+        m_idx = [i for i, a in enumerate(alts) if a and a[0][0] is C.LITERAL and chr(a[0][1]) in (MARK, RAWMARK)]
+        if not m_idx:
+            probs.append(("marker-not-alternative", "the marker is not an alternative of the `name` group: a comment line is never recognised"))
+        for i in m_idx:
+            for j, a in enumerate(alts[:i]):
+                if first_chars(a) & WORD:
+                    probs.append(("marker-after-word", "an alternative that can start with a word character is tried before the marker: the marker `c-` (comment_start_string '{c-') is read as the tag name `c`"))
+                    break
+            later_word = any(first_chars(a) & WORD for a in alts[i + 1 :])
+            if later_word and not boundary_ok(alts[i][1:]):
+                probs.append(("marker-prefix", "the marker alternative is not closed by a word boundary: with comment_start_string '{c' every line whose tag name starts with `c` (case, cycle, capture, continue) is skipped as a comment"))
+        verdicts.setdefault(key, []).append((probs, ln))
+    for key, vs in verdicts.items():
+        res.ob(f"marker-pattern:{'&'.join(key)[:60] or 'always'}", 3)
+        if any(not probs for probs, _ln in vs):
+            continue  # under marker-dependent conditions one variant per case: decided leniently
+        for probs, ln in vs[:1]:
+            for k, msg in probs:
+                res.add("C11-MARKER", init.qual, k, f"LiquidTag.__init__: {msg}", init.file, ln)
+
+    # -- the same marker, unescaped, reaches the tokenizer; the skip is an equality test -----
+    tk = repo.func("liquid.builtin.tags.liquid_tag._tokenize_liquid_expression")
+    res.ob(f"marker:{tk.qual}", 2)
+    ok_plumb = False
+    for c, env in plumb:
+        if c.args and is_name(c.args[0], "_tokenize_liquid_expression"):
+            kw = {k.arg: k.value for k in c.keywords}
+            v = kw.get("comment_start_string")
+            if v is not None and (ev(v, env) == "<marker>"):
+                ok_plumb = True
+    if not ok_plumb:
+        res.add("C11-MARKER", init.qual, "plumb", "LiquidTag.__init__ must hand the marker derived from env.comment_start_string (unescaped) to _tokenize_liquid_expression as comment_start_string", init.file, init.line)
+    fn = propagate_aliases(tk.node)
+    # locals bound once to the captured group: `name = match.group("name")`
+    binds: dict[str, list] = {}
+    for n in walk_no_nested(fn):
+        if isinstance(n, ast.Assign) and len(n.targets) == 1 and isinstance(n.targets[0], ast.Name):
+            binds.setdefault(n.targets[0].id, []).append(n.value)
+    cap = {nm for nm, vs in binds.items() if len(vs) == 1 and text(vs[0]).replace('"', "'") == "match.group('name')"}
+    want = set()
+    for lhs in ["match.group('name')"] + sorted(cap):
+        want.add(canon(ast.parse(f"{lhs} == comment_start_string", mode="eval").body))
+        want.add(canon(ast.parse(f"comment_start_string == {lhs}", mode="eval").body))
+    skips = [(st, cs) for st, cs in conditions(fn) if isinstance(st, ast.Continue)]
+    hit = [1 for st, cs in skips if {canon(c) for c in cs} & want]
+    if not hit:
+        res.add("C11-MARKER", tk.qual, "skip-test", "_tokenize_liquid_expression must skip a line exactly when the captured `name` equals comment_start_string", tk.file, tk.line)
+    for st, cs in skips:
+        cc = {canon(c) for c in cs}
+        if not (cc & want) and any("name" in x or "comment_start_string" in x for x in cc) and not any("SKIP" in x for x in cc):
+            res.add("C11-MARKER", tk.qual, f"skip-other:{sorted(cc)[-1][:50]}", "_tokenize_liquid_expression skips a line on a test other than `name == comment_start_string` (startswith / prefix tests swallow tag names that begin with the marker)", tk.file, st.lineno)
 
 
 def selftest(repo: Repo):
@@ -258,6 +531,10 @@ def selftest(repo: Repo):
         v("hard-coded-message", L, "                    f\"expected '{tag_end_string}', found end of file\",", "                    \"expected '%}', found end of file\",", "C11-LITERAL"),
         v("template-drops-autoescape", E, "        strict_filters=strict_filters,\n        autoescape=autoescape,\n        globals=None,", "        strict_filters=strict_filters,\n        autoescape=False,\n        globals=None,", "C11-PLUMB"),
         v("implicit-env-wrong-forward", E, "        comment_start_string=comment_start_string,\n        comment_end_string=comment_end_string,\n    )\n\n\n# `Template`", "        comment_start_string=comment_end_string,\n        comment_end_string=comment_end_string,\n    )\n\n\n# `Template`", "C11-PLUMB"),
+        v("marker-no-boundary", "liquid/builtin/tags/liquid_tag.py", "{seq}(?:(?<!\\w)|(?!\\w))|\\w+)", "{seq}|\\w+)", "C11-MARKER"),
+        v("marker-after-word", "liquid/builtin/tags/liquid_tag.py", "{seq}(?:(?<!\\w)|(?!\\w))|\\w+)", "\\w+|{seq})", "C11-MARKER"),
+        v("marker-unescaped", "liquid/builtin/tags/liquid_tag.py", "            seq = re.escape(comment_start_string)", "            seq = comment_start_string", "C11-MARKER"),
+        v("marker-prefix-skip", "liquid/builtin/tags/liquid_tag.py", "            if name == comment_start_string:\n                continue", "            if comment_start_string and name.startswith(comment_start_string):\n                continue", "C11-MARKER"),
         v("env-eq", E, "    def __hash__(self) -> int:\n        return hash(", "    def __eq__(self, other):\n        return isinstance(other, Environment) and hash(self) == hash(other)\n\n    def __hash__(self) -> int:\n        return hash(", "C11-IDENT"),
         v("hash-drops-mode", E, "                self.comment_end_string,\n                self.mode,\n", "                self.comment_end_string,\n", "C11-IDENT"),
         v("init-swaps-store", E, "        self.tag_start_string = tag_start_string\n        self.tag_end_string = tag_end_string", "        self.tag_start_string = tag_end_string\n        self.tag_end_string = tag_start_string", "C11-PLUMB"),
